@@ -26,6 +26,7 @@ RULE = (
     "contains the key and nothing lies to the right. Non-trivial = >=3 accepted "
     "explorations incl. a mixed-length one, >=1 rejected call and >=1 query without a "
     "containing member. Distinct = canonical JSON."
+    ' Added after the seeded rounds: continuations passed as list / tuple / one-shot iterator; segments whose hex-prefix bytes contain repr-special characters; a short segment plus a 6-13 nibble segment that starts with it; histories may continue from the deserialised fog; nearest_unknown() default argument; FullDirectionalVisibility and PerfectVisibility must not be subclasses of one another.'
 )
 LEVEL_TEXT = (
     "Exploration by stateful model-based property testing (call sequences as one "
